@@ -686,9 +686,9 @@ def filter_agree(ctx, rr):
 
     def or3(*vs):
         return True if any(v is True for v in vs) else (None if any(v is None for v in vs) else False)
-    for qual in ('Traph.get_webentity_pagelinks_iter',):
+    for qual in ('Traph.get_webentity_pagelinks_iter', 'Traph.get_webentity_outlinks_iter', 'Traph.get_webentity_inlinks_iter', 'Traph.get_webentity_most_linked_pages_iter'):
         u = P.unit(qual)
-        lps = _link_loops(P, u)
+        lps = [lp_ for lp_ in _link_loops(P, u) if _loop_direction(P, u, lp_) is not None]
         if not lps:
             continue
         outer = _enclosing_for(P, u, lps[0])
@@ -702,7 +702,9 @@ def filter_agree(ctx, rr):
             ho, hi = atom_val(r, '.has_outlinks()'), atom_val(r, '.has_inlinks()')
             ob, it, ib = r.val.get('truthy:include_outbound'), r.val.get('truthy:include_internal'), r.val.get('truthy:include_inbound')
             walked = {dir_of.get(id(e.node)) for e in r.events if e.kind == 'call' and id(e.node) in dir_of}
-            for d, want in (('out', and3(isp, ho, or3(ob, it))), ('in', and3(isp, hi, ib))):
+            sw_out = or3(ob, it) if ('include_outbound' in u.params or 'include_internal' in u.params) else True
+            sw_in = ib if 'include_inbound' in u.params else True
+            for d, want in (('out', and3(isp, ho, sw_out)), ('in', and3(isp, hi, sw_in))):
                 if d not in dir_of.values():
                     continue
                 if want is False and d in walked:
